@@ -54,6 +54,23 @@ theorem open_bad_known_sig_fails {msg : Bytes} {known : Verifiers} {split i : Na
   rw [ht] at hloop
   exact openLoop_bad_fails _ {} i line p k hl hp hfirst (by simp) hk hbad st hloop
 
+/-- ★ `open_partition`.  If `Open` returns a note then every line of the signature block is a well-formed
+    signature line, there are at most 100 of them, every lookup answered "found" or "unknown", and
+    * the verified signatures are the lines by known keys, in message order, keeping only the FIRST line
+      per (name, hash) — later lines by the same key are dropped without being verified (O4);
+    * the unverified signatures are the lines by unknown keys, in message order, without repeats of
+      an identical line. -/
+theorem open_partition {msg : Bytes} {known : Verifiers} {n : Note} (h : Open msg known = .ok n) :
+    ∃ split ps, lastIndexOf sigSplit msg = some split ∧ n.text = msg.take (split + 1) ∧
+      parseAll (sigLines (msg.drop (split + 2))) = some ps ∧ ps.length ≤ maxSigs ∧
+      (∀ p ∈ ps, isKnown known p = true ∨ isUnknown known p = true) ∧
+      n.sigs = (dedupFrom (fun p : SigLine => (p.name, p.hash)) [] (ps.filter (isKnown known))).map SigLine.toSig ∧
+      n.unverifiedSigs =
+        (dedupFrom (fun p : SigLine => p.line) [] (ps.filter (isUnknown known))).map SigLine.toSig := by
+  obtain ⟨split, st, _, hs, ht, _, _, hl, hsig, hunv, _⟩ := Open_ok h
+  obtain ⟨ps, hps, hlen, hall, h1, h2⟩ := openLoop_partition _ _ _ hl
+  exact ⟨split, ps, hs, ht, hps, by simpa using hlen, hall, by rw [hsig, h1]; simp, by rw [hunv, h2]; simp⟩
+
 /-- ★ `text_mutation_rejected`.  Unforgeability hypothesis: the verifiers of the known keys accept
     signatures over the signed text `t` only.  Then every message that opens — in particular every
     byte-level modification of a signed message — opens with text `t`; a message whose text part
@@ -127,5 +144,64 @@ theorem open_ambiguous_fails {msg : Bytes} {known : Verifiers} {split : Nat} {li
   rcases hcase with ⟨hu, _⟩ | ⟨v, hv, _⟩
   · rw [hk] at hu; cases hu
   · rw [hk] at hv; cases hv
+
+/-! ## Non-vacuity: concrete instances of the hypotheses -/
+
+namespace Ex
+/-- "hi\n" -/
+def t : Bytes := [104, 105, 10]
+/-- a key named "a" with hash 1 whose verifier accepts exactly signature [1,2,3] over `t` -/
+def vA : Verifier := ⟨[97], 1, fun x s => x == t && s == [1, 2, 3]⟩
+/-- a key with the same name and hash that rejects everything -/
+def vR : Verifier := ⟨[97], 1, fun _ _ => false⟩
+/-- "hi\n" ‖ "\n" ‖ "— a AAAAAQECAw==\n" -/
+def msg : Bytes := [104, 105, 10, 10, 226, 128, 148, 32, 97, 32, 65, 65, 65, 65, 65, 81, 69, 67, 65, 119, 61, 61, 10]
+def b64 : Bytes := [65, 65, 65, 65, 65, 81, 69, 67, 65, 119, 61, 61]
+def line : Bytes := [226, 128, 148, 32, 97, 32] ++ b64
+def p : SigLine := ⟨[97], b64, 1, [1, 2, 3], [97, 32] ++ b64⟩
+end Ex
+
+/-- `open_sound`: a message that opens -/
+example : Open Ex.msg (VerifierList [Ex.vA]) = .ok ⟨Ex.t, [⟨[97], 1, Ex.b64⟩], []⟩ := by rfl
+
+/-- `open_partition`: two lines by the same known key (the second one bad) and a repeated unknown line:
+    only the first line of the key is verified and listed; the unknown line is listed once -/
+example :
+    Open (Ex.t ++ [10] ++ Ex.line ++ [10] ++ (Ex.line.dropLast.dropLast ++ [61, 61]).set 14 66 ++ [10]
+            ++ (Ex.line.set 4 98) ++ [10] ++ (Ex.line.set 4 98) ++ [10]) (VerifierList [Ex.vA])
+      = .ok ⟨Ex.t, [⟨[97], 1, Ex.b64⟩], [⟨[98], 1, Ex.b64⟩]⟩ := by rfl
+
+/-- `open_bad_known_sig_fails`: the same message against a key that rejects -/
+example : lastIndexOf sigSplit Ex.msg = some 2 ∧
+    (sigLines (Ex.msg.drop (2 + 2)))[0]? = some Ex.line ∧ parseSigLine Ex.line = some Ex.p ∧
+    (∀ j, j < 0 → ∀ lj pj, (sigLines (Ex.msg.drop (2 + 2)))[j]? = some lj →
+      parseSigLine lj = some pj → (pj.name, pj.hash) ≠ (Ex.p.name, Ex.p.hash)) ∧
+    VerifierList [Ex.vR] Ex.p.name Ex.p.hash = .found Ex.vR ∧
+    Ex.vR.verify (Ex.msg.take (2 + 1)) Ex.p.sig = false :=
+  ⟨by rfl, by rfl, by rfl, fun j hj => absurd hj (Nat.not_lt_zero j), by rfl, by rfl⟩
+
+/-- `text_mutation_rejected`: the key `vA` is unforgeable for `t` (it accepts only `t`), and a message opens -/
+example : (∀ name hash k t' sig, VerifierList [Ex.vA] name hash = .found k → k.verify t' sig = true → t' = Ex.t) ∧
+    ∃ n, Open Ex.msg (VerifierList [Ex.vA]) = .ok n := by
+  refine ⟨?_, _, by rfl⟩
+  intro name hash k t' sig hk hv
+  obtain ⟨_, hmem, _⟩ := (verifierList_ambiguous [Ex.vA] name hash).2.2.1 k hk
+  simp only [List.mem_singleton] at hmem
+  subst hmem
+  simp only [Ex.vA, Bool.and_eq_true, beq_iff_eq] at hv
+  exact hv.1
+
+/-- `text_mutation_rejected'`: a modified message ("hj\n" instead of "hi\n") that still splits -/
+example : lastIndexOf sigSplit (Ex.msg.set 1 106) = some 2 ∧ (Ex.msg.set 1 106).take (2 + 1) ≠ Ex.t :=
+  ⟨by rfl, by decide⟩
+
+/-- `verifierList_ambiguous`: a list naming one key twice is ambiguous; Open then fails -/
+example : VerifierList [Ex.vA, Ex.vR] [97] 1 = .ambiguous := by rfl
+
+/-- `open_ambiguous_fails`: hypotheses hold for the example message and the ambiguous list -/
+example : lastIndexOf sigSplit Ex.msg = some 2 ∧
+    sigLines (Ex.msg.drop (2 + 2)) = Ex.line :: [] ∧ parseSigLine Ex.line = some Ex.p ∧
+    VerifierList [Ex.vA, Ex.vR] Ex.p.name Ex.p.hash = .ambiguous :=
+  ⟨by rfl, by rfl, by rfl, by rfl⟩
 
 end ModVerif.Props.C07
